@@ -1019,6 +1019,7 @@ def check_C12(tier, seed):
                        "function-quoted names, lambdas and closures; oracle: reference implementations in Python; the laws (car (cons a b)) = a, (nth n l) = (car (nthcdr n l)), "
                        '(length (append ..)) = sum are evaluated as expressions; correspondence with the Coq model incl. tick order; non-trivial = distinct (function, outcome)')
     res.cov['samples'] = [r[0] for r in rows[:2]] + [rows[len(rows) // 2][0], rows[-1][0]]
+    replay_known(res, 'C12')
     for d in res.pending:
         res.violation('disagreement', d, no_input=not oracle_confirms(d))
     return res.finish(gate)
@@ -1855,6 +1856,7 @@ def check_C05(tier, seed):
                        '1-4 later calls in contexts where the same names are assigned, shadowed by let or by parameters, or dynamically rebound (free variable gz must follow the caller); counters whose state persists '
                        'and stays invisible; sibling closures; nested closures; oracle: values computed from the template; plus random programs; correspondence with the model on every request')
     res.cov['samples'] = [items[0][0], items[len(items) // 2][0]]
+    replay_known(res, 'C05')
     for d in res.pending:
         res.violation('disagreement', d, no_input=not oracle_confirms(d))
     return res.finish(gate)
@@ -2339,6 +2341,9 @@ def check_C10(tier, seed):
               "(+ 9223372036854775807 1)", "(1+ 9223372036854775807)", "(1- -9223372036854775808)", "(max 9223372036854775807 1.5)", "(expt 0 -1)", "(expt -8 0.5)",
               "(setq gensym-counter 9223372036854775807) (gensym)", "(setq gensym-counter 'x) (gensym)", "(gethash 1 vbox)", "(puthash 1 2 vbox)", "(load 5)", "(load \"/nonexistent/file\")",
               "(intern \"\")", "(make-symbol \"\")", "(eval '(1 2))", "(eval ''a)", "(macroexpand '(when))", "(macroexpand '(-> ))", "(setq x '(progn (macroexpand x))) (eval x)", "(setq x (list 'append 'x)) (eval x)",
+              # a definition executed while the last form of the body it processes is being evaluated (a handler that reloads itself)
+              "(defun reload () (defun on-event () (reload))) (reload) (on-event) (on-event)", "(setq form '(defun f () (eval form))) (eval form) (f)",
+              "(defun f () (defun f () 2) 1) (list (f) (f))", "(setq form '(defmacro mm () (eval form))) (eval form)", "(defun g () (eval '(defun g () (g))) 7) (g)",
               "(setq l '(1 2)) (append l l)", "(setq l '(1 2)) (equal l l)", "(setq s 'q) (append s s)", "(let ((l (list 1 2))) (sort l (lambda (a b) (append l l) nil)))"]
     for sh in shapes: items.append((sh, {'name': 'shape'}))
     # the form under evaluation handed to the function it calls (the evaluator holds a borrow of that list while the call runs):
